@@ -291,6 +291,39 @@ where
     cen
 }
 
+/// Two nested levels of one-hole contexts around every fragment up to `n` nodes (+ the macro
+/// fragments): terms of up to n + 16 nodes whose inner fragment and both context levels are exhaustive
+/// (and_v chains of three, wrappers around control-flow fragments, ...).
+fn part_a_contexts<Ctx: CtxInfo>(rep: &Report, n: usize) -> Census
+where
+    Ctx::Key: ToPublicKey + FromStr,
+    ParseEnv: Env<Ctx::Key>,
+    <Ctx::Key as FromStr>::Err: std::fmt::Debug,
+    Ctx::Key: MiniscriptKey<Sha256 = sha256::Hash, Hash256 = miniscript::hash256::Hash, Ripemd160 = ripemd160::Hash, Hash160 = hash160::Hash>,
+{
+    let te = explore::<Ctx>(n, Alphabet::Small, Ctx::TAP);
+    let mut frags: Vec<T> = te.all().map(|m| walk(m).relabel_distinct()).collect();
+    frags.extend(crate::sat::macro_fragments(Ctx::TAP));
+    let mut terms: std::collections::BTreeSet<T> = frags.par_iter().flat_map_iter(|f| crate::sat::in_contexts2::<Ctx>(f)).collect();
+    // three levels around the fragments of at most two nodes (chains of three and_v / or / andor steps)
+    let small: Vec<T> = te.levels.iter().take(3).flat_map(|l| l.iter()).map(|m| walk(m).relabel_distinct()).collect();
+    let deep: Vec<T> = small.par_iter().flat_map_iter(|f| crate::sat::in_contexts_n::<Ctx>(f, 3)).collect();
+    terms.extend(deep);
+    let terms: Vec<T> = terms.into_iter().collect();
+    let mut cen = terms
+        .par_iter()
+        .fold(Census::new, |mut cen, t| {
+            check_term::<Ctx>(rep, t, &mut cen);
+            cen
+        })
+        .reduce(Census::new, |mut a, b| {
+            merge(&mut a, b);
+            a
+        });
+    *cen.entry("context_terms").or_insert(0) += terms.len() as u64;
+    cen
+}
+
 /// All of part (a) for one term; returns its script when the term was built.
 fn check_term<Ctx: CtxInfo>(rep: &Report, t: &T, cen: &mut Census) -> Option<Vec<u8>>
 where
@@ -666,6 +699,11 @@ pub fn run(tier: Tier) -> i32 {
     rep.merge_counts(&part_a_boundaries::<Tap>(&rep));
     rep.merge_counts(&part_a_boundaries::<Legacy>(&rep));
     rep.merge_counts(&part_a_boundaries::<BareCtx>(&rep));
+    let nc = tier.pick(3, 4);
+    rep.extra("context_fragment_nodes", json!(nc));
+    rep.merge_counts(&part_a_contexts::<Segwitv0>(&rep, nc));
+    rep.merge_counts(&part_a_contexts::<Tap>(&rep, nc));
+    rep.merge_counts(&part_a_contexts::<Legacy>(&rep, nc - 1));
     rep.count("byte_strings_that_decoded", decoded_ok);
     rep.sample(json!({"token_alphabet": "31 opcodes, numbers 0 1 2 16 17 32 100, two keys, a 32-byte and a 20-byte string"}));
     rep.sample(json!({"single_edits": "per token: deletion, adjacent swap, substitution/insertion by every alphabet token, PUSHDATA1/2/4 forms, 01 nn instead of OP_n, zero-padded numbers, *VERIFY split into op + VERIFY"}));
